@@ -34,5 +34,9 @@ man = {
     "not_applicable": na,
     "notes": "All checks are static (no opticomlib code is imported or executed). exit 0 holds / 1 VIOLATION / 2 ANALYSIS-ERROR (undecidable: vanished anchor or unknown idiom).",
 }
-json.dump(man, open(os.path.join(os.path.dirname(os.path.abspath(__file__)), "MANIFEST.json"), "w"), indent=1)
+_out = os.path.join(os.path.dirname(os.path.abspath(__file__)), "MANIFEST.json")
+_txt = json.dumps(man, indent=1)
+with open(_out + ".tmp", "w") as fh:
+    fh.write(_txt)
+os.replace(_out + ".tmp", _out)
 print("claimed", [c["property_id"] for c in checks], "n/a", [n["property_id"] for n in na])
